@@ -98,7 +98,7 @@ def run(ctx):
         ok = False
         for s in T.by_stream:
             txt = T.text(s)
-            if re.match(r"^⟨&?proc_macro2::Ident⟩ \. ⟨&?&?proc_macro2::Ident⟩$", txt):
+            if re.match(r"^⟨proc_macro2::Ident⟩ \. ⟨proc_macro2::Ident⟩$", txt):
                 ok = all(ctx._sat(d, r"discr\(self\)=Inherit") for d in ctx.pc_strs(f, T.by_stream[s][0].blk))
         ctx.ob("C01.H.inherit-template", f.key, "#dsn.#ident", ok, "Inherit must emit __default.<field ident>")
 
@@ -147,24 +147,24 @@ def run(ctx):
             if "expect" in txt:
                 ctx.ob("C01.S.required-field", ini.key, "expect branch", pc == [["is_some(self.0.default_expression)=False", "self.0.multiple=False"]], "emitted under %s" % pc)
             elif "if let Some ( __val )" in txt:
-                ok = bool(re.search(r": if let Some \( __val \) = ⟨&proc_macro2::Ident⟩ \. 1 \{ __val \} else \{ ⟨&darling_core::codegen::default_expr::DefaultExpression<'_>⟩ \}", txt))
+                ok = bool(re.search(r": if let Some \( __val \) = ⟨proc_macro2::Ident⟩ \. 1 \{ __val \} else \{ ⟨darling_core::codegen::default_expr::DefaultExpression<'_>⟩ \}", txt))
                 ctx.ob("C01.H.slot-before-default", ini.key, "single value with default", ok and pc == [["is_some(self.0.default_expression)=True", "self.0.multiple=False"]], "%s under %s" % (txt[:160], pc))
             elif "is_empty" in txt:
-                ok = bool(re.search(r": if ! ⟨&proc_macro2::Ident⟩ \. is_empty \( \) \{ ⟨&proc_macro2::Ident⟩ \} else \{ ⟨&darling_core::codegen::default_expr::DefaultExpression<'_>⟩ \}", txt))
+                ok = bool(re.search(r": if ! ⟨proc_macro2::Ident⟩ \. is_empty \( \) \{ ⟨proc_macro2::Ident⟩ \} else \{ ⟨darling_core::codegen::default_expr::DefaultExpression<'_>⟩ \}", txt))
                 ctx.ob("C01.H.slot-before-default", ini.key, "multiple with default", ok and pc == [["is_some(self.0.default_expression)=True", "self.0.multiple=True"]], "%s under %s" % (txt[:160], pc))
     # ------------------------------------------------------------ extraction pipeline order
     f = f_arm
     if f:
         T = tpl.Templates(f)
         txt = " ".join(T.render(T.root_streams()[-1])) if T.root_streams() else ""
-        rx = r":: darling :: export :: identity :: < fn \( & :: (darling :: export :: )?syn :: Meta \) -> :: darling :: Result < _ >> \( ⟨&alloc::borrow::Cow<'_, syn::expr::Expr>⟩ \) \( __inner \) ⟨core::option::Option<&&darling_core::codegen::postfix_transform::PostfixTransform>⟩ \. map_err \("
+        rx = r":: darling :: export :: identity :: < fn \( & :: (darling :: export :: )?syn :: Meta \) -> :: darling :: Result < _ >> \( ⟨alloc::borrow::Cow<'_, syn::expr::Expr>⟩ \) \( __inner \) ⟨core::option::Option<darling_core::codegen::postfix_transform::PostfixTransform>⟩ \. map_err \("
         n = len(re.findall(rx, txt))
         ctx.ob("C01.H.pipeline-order", f.key, "converter(__inner) → post_transform → map_err", n >= 2, "%d extractors in that order" % n)
     f = ctx.fn("<darling_core::codegen::postfix_transform::PostfixTransform as quote::to_tokens::ToTokens>::to_tokens")
     if f:
         T = tpl.Templates(f)
         txt = " | ".join(T.text(s) for s in T.root_streams())
-        ctx.ob("C01.H.post-transform-template", f.key, ".#transformer(#function)", ". ⟨&proc_macro2::Ident⟩ ( ⟨&syn::path::Path⟩ )" in txt, txt)
+        ctx.ob("C01.H.post-transform-template", f.key, ".#transformer(#function)", ". ⟨proc_macro2::Ident⟩ ( ⟨syn::path::Path⟩ )" in txt, txt)
     # container post_transform is applied in every fn-body shape that constructs the receiver (F12)
     from .C02 import FN_BODY_TEMPLATES
     for key in FN_BODY_TEMPLATES[:6]:
@@ -180,7 +180,7 @@ def run(ctx):
             pc = [sorted(d) for d in ctx.pc_strs(f, T.by_stream[s][0].blk)]
             shape = _shape_of(pc)
             has_pt = any(tk.kind == "interp" and "post_transform_call(" in (tk.expr or "") for tk in toks)
-            constructs = bool(re.search(r"Ok \( (Self \{|⟨&proc_macro2::Ident⟩)", txt)) or ". map ( ⟨&proc_macro2::Ident⟩ )" in txt or "⟨quote::__private::RepInterp<darling_core::codegen::variant::DataMatchArm" in txt
+            constructs = bool(re.search(r"Ok \( (Self \{|⟨proc_macro2::Ident⟩)", txt)) or ". map ( ⟨proc_macro2::Ident⟩ )" in txt or "⟨quote::__private::RepInterp<darling_core::codegen::variant::DataMatchArm" in txt
             if not constructs:
                 continue
             ev = "fn-body template for %s" % shape
